@@ -140,6 +140,7 @@ def _solve_cli(cmd, smt2, timeout_s, want_model=True):
 
 
 _OBLIGS = []
+_FOUND = None      # shared flag: a refutation has been found in this run (later unknowns skip the expensive fall-back chain)
 
 
 def _has_quant(t, seen=None):
@@ -233,7 +234,7 @@ def _ground_terms(asserts, sort, limit=12):
     return terms[:limit]
 
 
-def _instantiated_sat(asserts, timeout_ms, linear=False):
+def _instantiated_sat(asserts, timeout_ms, linear=False, instantiate=True):
     """Counter-model search when the solver cannot decide the quantified query: the negated goal is skolemised, every
     universally quantified hypothesis is replaced by its instances at the ground terms (of the bound variables' sorts)
     occurring in the obligation.  The hypotheses are thereby weakened: a model found here is a *candidate* counterexample
@@ -248,7 +249,7 @@ def _instantiated_sat(asserts, timeout_ms, linear=False):
         extra = []
         cache = {}
         for a in hyps:
-            if not (z3.is_quantifier(a) and a.is_forall()):
+            if not instantiate or not (z3.is_quantifier(a) and a.is_forall()):
                 continue
             nv = a.num_vars()
             if nv > 2:
@@ -349,10 +350,14 @@ def solve_forked(args):
             if r == z3.unsat:
                 return str(idx), 'unsat', 'z3-5.1.0(api)', ms, None, '' if not attempt else 'seed %d' % seed
             if r == z3.sat:
+                if _FOUND is not None:
+                    _FOUND.value = 1
                 return str(idx), 'sat', 'z3-5.1.0(api)', ms, _model_dict(s.model()), ''
             reason = s.reason_unknown()
             if o.expect_sat:
                 break
+            if _FOUND is not None and _FOUND.value:
+                return str(idx), 'unknown', 'z3-5.1.0(api)', ms, None, reason + ' (fall-back chain skipped: a violation was already found)'
         if use_fallback:
             name, r2, backend, ms2, model, reason2 = solve_text((str(idx), o.to_smt2(), min(timeout_ms, 10000), True, True))
             if r2 in ('sat', 'unsat'):
@@ -361,12 +366,22 @@ def solve_forked(args):
         if not o.expect_sat:
             r3, model3 = _instantiated_sat(asserts, min(timeout_ms, 15000))
             if r3 == 'sat':
+                if _FOUND is not None:
+                    _FOUND.value = 1
                 return (str(idx), 'sat', 'z3-5.1.0(api)', (time.time() - t0) * 1000, model3,
                         'CANDIDATE counter-model: quantified hypotheses instantiated at the ground terms of the obligation')
             r3, model3 = _instantiated_sat(asserts, min(timeout_ms, 10000), linear=True)
             if r3 == 'sat':
+                if _FOUND is not None:
+                    _FOUND.value = 1
                 return (str(idx), 'sat', 'z3-5.1.0(api)', (time.time() - t0) * 1000, model3,
                         'CANDIDATE counter-model: quantified hypotheses instantiated, nonlinear products treated as opaque terms')
+            r3, model3 = _instantiated_sat(asserts, min(timeout_ms, 10000), linear=True, instantiate=False)
+            if r3 == 'sat':
+                if _FOUND is not None:
+                    _FOUND.value = 1
+                return (str(idx), 'sat', 'z3-5.1.0(api)', (time.time() - t0) * 1000, model3,
+                        'CANDIDATE counter-model: quantifier-free hypotheses only, nonlinear products treated as opaque terms')
         return str(idx), 'unknown', 'z3-5.1.0(api)', (time.time() - t0) * 1000, None, reason
     except Exception as e:
         return str(idx), 'unknown', 'error', 0.0, None, 'solver error: %r' % (e,)
@@ -404,8 +419,9 @@ def solve_text(args):
 
 def discharge(obligs, timeout_ms=30000, procs=None, fallback=True):
     """Solve all obligations (in a pool when there are many)."""
-    global _OBLIGS
+    global _OBLIGS, _FOUND
     _OBLIGS = obligs
+    _FOUND = multiprocessing.get_context('fork').Value('i', 0)
     tasks = [(i, timeout_ms, fallback) for i in range(len(obligs))]
     procs = procs or min(16, max(1, len(tasks)))
     if len(tasks) <= 2 or procs == 1:
